@@ -33,11 +33,15 @@ func runC05(c *fw.Ctx) {
 		bisimHook(c)
 	}
 	phase("bisimulation_report")
-	if corpusC05Hook != nil {
-		corpusC05Hook(c)
-	}
-	phase("corpus")
-	defer phase("pool")
+	// the fixtures after the pool: a large fixture has a large neighbourhood, and the cap must cut
+	// the end of that one, not the pool
+	defer func() {
+		phase("pool")
+		if corpusC05Hook != nil {
+			corpusC05Hook(c)
+		}
+		phase("corpus")
+	}()
 	docSets(!c.Quick(), func(name string, blocks []doc.Block) {
 		if c.Expired() {
 			return
